@@ -202,8 +202,9 @@ def r2_dtype(R) -> None:
         rs = g.raises('DimensionError')
         R.require(q, len(rs), 'raise DimensionError on shape mismatch', fi=g.fi, pred=lambda x: isinstance(x, ast.Raise))
         for r in rs:
-            atoms = [text(a) for (a, truth, _t) in g.guard_atoms(r.id) if truth]
-            R.check('new_values.shape != self.values.shape' in atoms, q, 'values-shape-guard', 'a replacement array must have exactly the shape of `values`',
+            atoms = [(text(a), truth) for (a, truth, _t) in g.guard_atoms(r.id)]
+            nv = (g.fi.params() + ['new_values'])[1] if len(g.fi.params()) > 1 else 'new_values'
+            R.check(g.holds(r.id, f'{nv}.shape != self.values.shape'), q, 'values-shape-guard', 'a replacement array must have exactly the shape of `values`',
                     f'DimensionError guard is {atoms}', where=g.where(r))
     # reindex
     h = Fn(R, f'{VC}.reindex')
